@@ -216,7 +216,10 @@ async def _caller(world, driver, c, recs, hooks):
                 rec.status = "raised"
                 rec.exc = e
         finally:
-            world.unit.reset(tok)
+            try:
+                world.unit.reset(tok)
+            except ValueError:      # coroutine finalised outside its task context
+                pass
             rec.t_end = world.now_us()
             rec.ev_end = world.log.add(world.loop.time(), "op-end", unit,
                                        (rec.status, type(rec.exc).__name__ if rec.exc else None))
@@ -321,7 +324,8 @@ def run(plan, hooks=None):
             if is_hid:
                 driver.connect()
                 if not plan["knobs"].get("no_wait_connected"):
-                    await asyncio.wait_for(driver.connected.wait(), 30)
+                    await asyncio.wait_for(driver.connected.wait(),
+                                           plan.get("connect_wait_s", 30))
             else:
                 await asyncio.wait_for(driver.connect(), 30)
         except Exception as e:              # noqa: BLE001
